@@ -12,6 +12,7 @@ import (
 	"encoding/hex"
 	"encoding/json"
 	"fmt"
+	"strconv"
 	"strings"
 
 	cedar "github.com/cedar-policy/cedar-go"
@@ -458,6 +459,46 @@ func runC07(c *vh.Ctx) {
 					Check: "oracle", Op: "UnmarshalCedar", Input: t2, Expected: "error", Actual: impl2})
 			}
 			addParse([]byte(t2), "rejected-form", false)
+		}
+	}
+
+	// ---------- (b'') integer literal spellings: the grammar's INT is a decimal digit string; leading zeros do not
+	// change the value, in every context (bare, under unary minus / not, before a member access, at the int64 limits).
+	// Direct oracle: the text with the literal written canonically must parse to the same tree (or both are rejected);
+	// correspondence: model parser vs Go parser on the same texts.
+	{
+		vals := []string{"0", "1", "7", "8", "9", "10", "17", "64", "77", "100", "511", "777", "1000", "9223372036854775807", "9223372036854775808", "9223372036854775809"}
+		for i := 0; i < c.N(12, 200); i++ {
+			vals = append(vals, strconv.FormatUint(c.Rng.Uint64()>>uint(c.Rng.Intn(64)), 10))
+		}
+		ctxs := []string{"%s == 1", "-%s == 1", "- %s == 1", "--%s == 1", "!(-%s < 2)", "[-%s, %s].contains(-%s)", "1 - -%s > 0", "-%s * -%s == 4",
+			"(-%s) == 1", "-%s.foo", "-%s[\"k\"]", "context.n + -%s == 0", "if -%s < 0 then -%s else %s", "{k: -%s}.k == -%s", "-(%s) == 1", "!-%s"}
+		for _, v := range vals {
+			for _, z := range []string{"0", "00", "00000"} {
+				for _, cx := range ctxs {
+					n := strings.Count(cx, "%s")
+					sp, cn := make([]any, n), make([]any, n)
+					for k := range sp {
+						sp[k], cn[k] = z+v, v
+					}
+					spelled := "permit(principal, action, resource) when { " + fmt.Sprintf(cx, sp...) + " };"
+					canon := "permit(principal, action, resource) when { " + fmt.Sprintf(cx, cn...) + " };"
+					c.Res.OracleChecks++
+					c.Count("intlit:"+spelled, true)
+					c.Dist("int-literal-spelling")
+					si, sp1 := goParse([]byte(spelled))
+					ci, cp1 := goParse([]byte(canon))
+					same := (sp1 == nil) == (cp1 == nil)
+					if same && sp1 != nil {
+						same = encNoPos(sp1) == encNoPos(cp1)
+					}
+					if !same {
+						c.Report(vh.Finding{Class: "int-literal-leading-zeros", What: fmt.Sprintf("an integer literal with leading zeros does not denote its decimal value: %s parses to %s but %s parses to %s", spelled, si, canon, ci),
+							Check: "oracle", Op: "UnmarshalCedar", Input: spelled, Expected: ci, Actual: si})
+					}
+					addParse([]byte(spelled), "int-literal", false)
+				}
+			}
 		}
 	}
 
